@@ -85,6 +85,19 @@ Check (C04_backpressure :
   forall (bp : N) (script : list wev) (w : wstate) (sent0 : list N) w' sent' script',
   0 < bp -> pbytes w = lenN (qbytes w) ->
   poll_ready bp script w sent0 = (WOk, w', sent', script') -> pbytes w' < bp).
+Check (C04_poll_ready_flushes_to_boundary :
+  forall (bp : N) (script : list wev) (w : wstate) (sent0 : list N),
+  (pbytes w < bp -> poll_ready bp script w sent0 = (WOk, w, sent0, script)) /\
+  (bp <= pbytes w -> poll_ready bp script w sent0 = flush script w sent0) /\
+  (forall r w' sent' script',
+     0 < bp -> pbytes w = lenN (qbytes w) ->
+     poll_ready bp script w sent0 = (r, w', sent', script') ->
+     (r = WOk -> pbytes w' < bp) /\
+     (pbytes w' < bp -> forall script2, poll_ready bp script2 w' sent' = (WOk, w', sent', script2)))).
+Check (C04_eof_inside_frame_is_end_of_stream :
+  forall (c : codec) (wire : list N) (script : list rdev) (polls : nat) outs st wire' script' rest,
+  run_reader polls c (init_r c) wire script = (outs, st, wire', script') ->
+  poll_next c st wire' (EvEof :: rest) = (RClosed, st, wire', rest)).
 Check (C04_roundtrip :
   forall (bp : N) (c : codec) (wscript : list wev) (ops : list op) rs s'
          (rscript : list rdev) (polls : nat) outs st' wire' script',
